@@ -64,6 +64,7 @@ theorem segMatchValues_ctx {rec rec' : Spec.SegRec}
     | num q => simp only [Spec.segMatchValues]; exact ih
     | arr xs => simp only [Spec.segMatchValues]; exact ih
     | obj kvs => simp only [Spec.segMatchValues]; exact ih
+    | raw w => simp only [Spec.segMatchValues]; exact ih
 
 theorem clauseMatch_ctx {rec rec' : Spec.SegRec}
     (hrec : ∀ s ∈ env.store.segments.map (·.2), ∀ chain, rec' s chain = rec s chain)
